@@ -87,6 +87,29 @@ def _normalize_body(body, scope):
             out.append(new)
             i += 1
             continue
+        # v = [] ; for t in it: [if c:] v.append(e)   ->   v = [e for t in it [if c]]
+        if isinstance(st, ast.Assign) and len(st.targets) == 1 and isinstance(st.targets[0], ast.Name) and isinstance(st.value, ast.List) and not st.value.elts \
+                and isinstance(nxt, ast.For) and not nxt.orelse and len(nxt.body) == 1:
+            v = st.targets[0].id
+            inner = nxt.body[0]
+            conds = []
+            while isinstance(inner, ast.If) and not inner.orelse and len(inner.body) == 1:
+                conds.append(inner.test)
+                inner = inner.body[0]
+            if isinstance(inner, ast.Expr) and isinstance(inner.value, ast.Call) and isinstance(inner.value.func, ast.Attribute) and inner.value.func.attr == 'append' \
+                    and isinstance(inner.value.func.value, ast.Name) and inner.value.func.value.id == v and len(inner.value.args) == 1 and not inner.value.keywords \
+                    and not any(isinstance(n, ast.Name) and n.id == v for x in [nxt.iter, inner.value.args[0]] + conds for n in ast.walk(x)):
+                comp = ast.ListComp(elt=inner.value.args[0], generators=[ast.comprehension(target=nxt.target, iter=nxt.iter, ifs=conds, is_async=0)])
+                new = ast.Assign(targets=[ast.Name(id=v, ctx=ast.Store())], value=comp)
+                new.type_comment = None
+                ast.copy_location(new, st)
+                ast.copy_location(comp, st)
+                for n in ast.walk(comp):
+                    if not hasattr(n, 'lineno'):
+                        ast.copy_location(n, st) if hasattr(n, '_attributes') and 'lineno' in n._attributes else None
+                out.append(new)
+                i += 2
+                continue
         # a list comprehension evaluated for its side effects only:  [f(i) for i in X if c]  ->  for i in X: (if c:) f(i)
         if isinstance(st, ast.Expr) and isinstance(st.value, ast.ListComp) and isinstance(st.value.elt, ast.Call):
             loop = [ast.copy_location(ast.Expr(value=st.value.elt), st)]
